@@ -19,8 +19,8 @@ import (
 	"runtime/debug"
 	"runtime/pprof"
 	"sort"
-	"time"
 	"strings"
+	"time"
 
 	"github.com/risor-io/risor/object"
 
@@ -274,6 +274,9 @@ func judge(d *domain, before, after *mworld, e exp, o Op, out realOut, mode stri
 				if origin == "" {
 					origin = "?"
 				}
+				if nm, ok := kindNames[origin]; ok {
+					origin = nm
+				}
 				mm := &mismatch{sig: fmt.Sprintf("%s.%s-result-shares-storage-with-operand%s", d.name, origin, suffix),
 					what:     wh() + ": variable " + n + " changed although the operation does not touch it (it was produced by `" + origin + "`, which must be independent of its operand)",
 					observed: "{" + realState() + "}", expected: "{" + stateOf(want) + "}"}
@@ -370,11 +373,19 @@ func step(h *harness, d *domain, seq []Op, before *mworld, o Op, withScript bool
 			_, mm2, _ = judge(d, before, after2, e2, o, sout, "script")
 		}
 		if mm2 != nil {
+			// the object API agreed on this step, so the VM path disagrees somewhere in the program: find the first
+			// history step it does not execute like the model and report that step instead of the last one
+			if bm := blameHistory(h, d, seq); bm != nil {
+				return stepResult{mm: bm, class: class}, true
+			}
 			mm2.input = replayInput{Domain: d.name, Seq: seq, Op: o, Mode: "script", Script: src}
 			return stepResult{mm: mm2, class: class}, true
 		}
 		// the two paths must also agree with each other where the model admits two outcomes
 		if sout.isErr != out.isErr {
+			if bm := blameHistory(h, d, seq); bm != nil {
+				return stepResult{mm: bm, class: class}, true
+			}
 			mm3 := &mismatch{sig: label(d.name, o) + "-api-and-vm-disagree", what: fmt.Sprintf("%s: state {%s}, op `%s`: object API error=%v, script error=%v", d.name, before.key(d.vars), o, out.isErr, sout.isErr),
 				observed: fmt.Sprintf("api error=%v script error=%v", out.isErr, sout.isErr), expected: "the same outcome on both paths",
 				input: replayInput{Domain: d.name, Seq: seq, Op: o, Mode: "script", Script: src}}
@@ -382,6 +393,28 @@ func step(h *harness, d *domain, seq []Op, before *mworld, o Op, withScript bool
 		}
 	}
 	return stepResult{next: next, class: class}, withScript
+}
+
+// blameHistory runs every prefix of the history as a program of its own and returns the mismatch of the first
+// history step the VM path does not execute like the model (nil if the whole history is fine).
+func blameHistory(h *harness, d *domain, seq []Op) *mismatch {
+	m := d.init()
+	for k, p := range seq {
+		after := m.clone()
+		e := evalModel(after, p)
+		if p.Err {
+			continue // left out of programs
+		}
+		src := scriptFor(d, seq[:k], p)
+		out := runScriptStep(h, d, src, true)
+		next, mm, _ := judge(d, m, after, e, p, out, "script")
+		if mm != nil {
+			mm.input = replayInput{Domain: d.name, Seq: seq[:k], Op: p, Mode: "script", Script: src}
+			return mm
+		}
+		m = next
+	}
+	return nil
 }
 
 // ---------------------------------------------------------------- search
@@ -420,8 +453,51 @@ type totals struct {
 	states, transitions, validated, scripts int
 }
 
+// confirmed: signatures whose first witness has been re-executed from its replay input.
+var confirmed = map[string]bool{}
+
+// recheck re-executes a replay input without the explorer and returns the signature it produces ("" = agrees).
+func recheck(h *harness, in replayInput) string {
+	d := domainByName(in.Domain)
+	m := d.init()
+	for _, p := range in.Seq {
+		if e := evalModel(m, p); p.Err {
+			_ = e
+		}
+	}
+	after := m.clone()
+	e := evalModel(after, in.Op)
+	var out realOut
+	if in.Mode == "api" {
+		var rerr string
+		out, rerr = runAPI(h, d, in.Seq, in.Op)
+		if rerr != "" {
+			return "replay-diverged: " + rerr
+		}
+	} else {
+		out = runScriptStep(h, d, scriptFor(d, in.Seq, in.Op), true)
+	}
+	_, mm, _ := judge(d, m, after, e, in.Op, out, in.Mode)
+	if mm == nil {
+		return ""
+	}
+	return mm.sig
+}
+
 func report(r *ev.Run, so *stateOut) {
 	for _, mm := range so.mms {
+		if !confirmed[mm.sig] {
+			// every new kind of failure is re-executed 3 times from its replay input before it is reported;
+			// a replay that does not reproduce it is an engine error, not a violation
+			confirmed[mm.sig] = true
+			h := harnessPool.Get().(*harness)
+			for k := 0; k < 3; k++ {
+				if got := recheck(h, mm.input); got != mm.sig && !strings.HasSuffix(mm.sig, "-api-and-vm-disagree") {
+					r.EngineError(fmt.Sprintf("replay of %q does not reproduce it (got %q)", mm.sig, got))
+				}
+			}
+			harnessPool.Put(h)
+		}
 		for k := 0; k < so.mmCount[mm.sig]; k++ {
 			r.Report(mm.sig, mm.what, mm.input, mm.observed, mm.expected)
 		}
@@ -527,10 +603,32 @@ func unmerged(r *ev.Run, d *domain, maxDepth, stride int, t *totals) {
 		o   Op
 	}
 	var jobs []job
+	var preOut stateOut
+	preOut.outcomes = map[string]struct{}{}
 	for _, pre := range d.prefixes {
+		// the starting history is judged step by step first; a starting history the implementation does not
+		// execute like the model is reported there and not built upon
 		m := d.init()
-		for _, p := range pre {
-			evalModel(m, p)
+		h := harnessPool.Get().(*harness)
+		good := true
+		for k, p := range pre {
+			res, _ := step(h, d, pre[:k], m, p, true)
+			preOut.steps++
+			if res.errEng != "" {
+				preOut.errEng = res.errEng
+			}
+			if res.mm != nil {
+				preOut.addMismatch(res.mm)
+			}
+			if res.next == nil {
+				good = false
+				break
+			}
+			m = res.next
+		}
+		harnessPool.Put(h)
+		if !good {
+			continue
 		}
 		for _, o := range d.enum(m) {
 			jobs = append(jobs, job{pre: pre, m: m, o: o})
@@ -579,6 +677,8 @@ func unmerged(r *ev.Run, d *domain, maxDepth, stride int, t *totals) {
 		rec(jobs[i].pre, jobs[i].m, jobs[i].o, 1)
 	})
 	total := 0
+	report(r, &preOut)
+	t.validated += preOut.steps
 	for i := range outs {
 		report(r, &outs[i])
 		total += outs[i].steps
@@ -597,7 +697,7 @@ func Check(r *ev.Run, replay string) {
 	}
 	// bounds
 	listLen, aliasLen, strLen, maxZ := 4, 3, 4, 1
-	stride, udepth, ustride := 20, 2, 50
+	stride, udepth, ustride := 10, 2, 50
 	if r.Thorough() {
 		aliasLen = 4
 		stride, udepth, ustride = 1, 3, 200
@@ -619,6 +719,8 @@ func Check(r *ev.Run, replay string) {
 		"where the statement is silent the model admits two outcomes: x[len:len] and x[i:j] with i > j (empty or error), insert beyond either end (clamp or error), remove/index of a missing value, map[k]/m.k/pop(k)/delete of a missing key (nil/no-op or error), s[v] on a set (membership flag or error), sort of mixed ints and strings (error or any permutation)",
 		"the value returned by mutating methods (append returns the list, ...) and by each() is not judged; the order of map/set iteration, keys(), values(), items() is not judged (compared as multisets)",
 		"iterate-while-mutating is left out: the statement gives no oracle for it",
+		"builtins passed as callbacks, `+` with a wrongly typed operand, s[unhashable] and sort() of a list holding maps may raise an error or give the natural result - only a panic or a changed operand is a failure there",
+		"one-variable `for v in set` is not judged (it yields `true` per member on this tree; the repository's own test only pins the count); sets are iterated with `for k := range s`",
 		"maps use keys {a, b}; keys that collide with method names (m.keys) are not enumerated: the statement does not say which wins",
 	}
 	// the search allocates many short-lived small objects on a tiny live heap: let the heap grow between collections
@@ -656,7 +758,7 @@ func Check(r *ev.Run, replay string) {
 		"set s (+ derived c): add remove delete clear union intersection in [v] len for-range; "+
 		"string over the code points of %q (every substring and every string of <= %d code points reachable by slicing, indexing, reversing, appending one code point): [i] [i:j] [:j] [i:] + in len for-range; "+
 		"byte_slice b = bytes of %q (+ derived c: slice / clone / byte_slice() / +), [i]=\"Z\" with at most %d changed bytes per variable; "+
-		"every transition through the object API, every %d-th also as a program through risor.Eval; plus all un-merged operation sequences of depth <= %d (byte_slice: 2) from up to %d starting histories per type (for lists one with spare slice capacity and a stale slot), every %d-th of them also through risor.Eval",
+		"every transition through the object API, every %d-th also as a program through risor.Eval; plus all un-merged operation sequences of depth <= %d (byte_slice: 2) from up to %d starting histories per type (for lists one with spare slice capacity and a stale slot), every %d-th of them also through risor.Eval. distinct = distinct state keys + distinct (type, operation, operand, destination, callback, outcome class) tuples",
 		listLen, aliasLen, baseText, strLen, baseText, maxZ, stride, udepth, len(doms[0].prefixes), ustride))
 	r.Sample(map[string]any{"domain": "list", "history": []string{"l.append(1)", "c = l[0:1]"}, "op": "c.append(2)", "judged": "result, error-or-not, contents of l and c against the Go slice model"})
 	r.Sample(map[string]any{"domain": "list", "script": scriptFor(doms[0], []Op{{K: "append", T: "l", V: "1"}}, Op{K: "iadd", T: "l", I: -1, V: "1"})})
